@@ -134,7 +134,8 @@ func (s *Slice[T]) splice(start, deleteCount int, insert ...T) ([]T, error) {
 		return nil, ErrIndexOutOfBounds
 	}
 
-	deleteCount = min(deleteCount, len(s.elements)-start)
+	// clamp to [0, len-start]: a negative count removes nothing (as in JS)
+	deleteCount = max(0, min(deleteCount, len(s.elements)-start))
 	removed := make([]T, deleteCount)
 	copy(removed, s.elements[start:start+deleteCount])
 
